@@ -222,6 +222,8 @@ package websocket
 //@ ensures[C04.reject] imp(c.br.g_rd >= h+2 && rfc_violates(s, h, c.isServer, inMsg, c.newDecompressionReader != nil), \
 //@     err != nil && err != io.EOF && c.br.g_rd == h+2 && c.g_hcalls == old(c.g_hcalls) && \
 //@     c.g_ctlCount == old(c.g_ctlCount)+1 && c.g_ctlType == 8 && c.g_ctlCode == 1002)
+//@ ensures[C03+C08.accept] imp(c.br.g_rd >= h+2 && !rfc_violates(s, h, c.isServer, inMsg, c.newDecompressionReader != nil) && rfc_opcode(s, h) != 8 && c.g_hcalls == old(c.g_hcalls), \
+//@     !(c.g_ctlCount == old(c.g_ctlCount)+1 && c.g_ctlType == 8 && c.g_ctlCode == 1002))
 //@ ensures[C03.hdr] imp(err == nil && (r0 == 0 || r0 == 1 || r0 == 2), \
 //@     r0 == rfc_opcode(s, h) && c.br.g_rd == h + rfc_hdrLen(s, h) && c.readRemaining == rfc_payLen(s, h) && \
 //@     c.readFinal == rfc_fin(s, h) && c.readDecompress == rfc_rsv1(s, h) && c.g_hcalls == old(c.g_hcalls))
